@@ -203,6 +203,7 @@ func (r *Reader) parseWorksheets() error {
 	}
 
 	r.sheets = make([]*Sheet, 0, len(r.workbook.Sheets.Sheet))
+	totalCells := 0
 
 	for i, sheetRef := range r.workbook.Sheets.Sheet {
 		// Find the sheet file path from relationships
@@ -233,6 +234,12 @@ func (r *Reader) parseWorksheets() error {
 			continue // Skip sheets that fail to parse
 		}
 
+		// The per-sheet budget bounds one grid; a workbook may declare any number of sheets.
+		totalCells += len(sheet.Rows) * (sheet.MaxCol + 1)
+		if totalCells > maxWorkbookCells {
+			return fmt.Errorf("workbook is too large: more than %d cells in its worksheets", maxWorkbookCells)
+		}
+
 		r.sheets = append(r.sheets, sheet)
 	}
 
@@ -250,6 +257,9 @@ const (
 	maxSheetRows  = 1048576
 	maxSheetCols  = 16384
 	maxSheetCells = 5000000
+
+	// maxWorkbookCells bounds the dense grids of all worksheets of one workbook together.
+	maxWorkbookCells = 2 * maxSheetCells
 )
 
 // parseWorksheet parses a single worksheet.
